@@ -651,3 +651,32 @@ def self_fields_read(body):
     for i in body.live_blocks():
         walk(body.blocks[i])
     return out
+
+
+def arith_origins(body, op, depth=6):
+    """origins(op) with arithmetic looked through: a ('binop', ..) / ('unop', ..) leaf is replaced by the origins of its operands"""
+    out = set()
+    for l in body.origins(op):
+        if l[0] in ("binop", "unop") and depth > 0:
+            hit = False
+            for st in body.blocks[l[2]]["s"]:
+                v = st.get("v")
+                if not v:
+                    continue
+                if l[0] == "binop" and v.get("r") == "bin" and v.get("op") == l[1]:
+                    out |= arith_origins(body, v["a"], depth - 1) | arith_origins(body, v["b"], depth - 1)
+                    hit = True
+                elif l[0] == "unop" and v.get("r") == "un" and v.get("op") == l[1]:
+                    out |= arith_origins(body, v["o"], depth - 1)
+                    hit = True
+            if not hit:
+                out.add(l)
+        else:
+            out.add(l)
+    return out
+
+
+def in_cycle(body, bb, cut_blocks=()):
+    """block bb lies on a cycle (it can be reached again after leaving it) that avoids cut_blocks"""
+    cut = list(cut_blocks)
+    return any(bb in body.reach(t, cut_blocks=cut) for t, _l in body.succ(bb) if t not in cut)
